@@ -313,21 +313,30 @@ Qed.
 Definition ran_to_end (v : vm) (c : ctx) (m : mem) (s' : cstate) (G' : world) (r : vm * run_result) : Prop :=
   exists v' m', r = (v', RValue VNil) /\
     assoc_get (v_mems v') (c_mid c) = Some m' /\ m_sp m' = m_sp m /\ msame (m_sp m) m m' /\
-    wof v' = G' /\
+    wof v' = G' /\ v_frames v' = v_frames v /\
     (exists c', assoc_get (v_ctxs v') 0 = Some c' /\ c_ip c' = ncs s' /\ c_mid c' = c_mid c /\
                 c_children c' = c_children c).
 
-Theorem bytecode_nostck_run_stmt t s s' v c m n G' res :
+(* with the short runs too: below the k steps the run takes, it is out of fuel (or, for an error, may
+   already have reached it) *)
+Theorem bytecode_nostck_run_stmt_full t s s' v c m n G' res :
   wstmt t = true -> wfcs s -> idle v s c m -> bcode (load_code v s) ->
   ByteCodeNoStck t s = CompOk s' ->
   ssem n (wof v) t = Some (G', res) ->
-  wfcs s' /\
-  exists k, forall fuel, (k < fuel)%nat ->
-    match res with
-    | Ok _ => ran_to_end v c m s' G' (Run fuel (load_code v s') false)
-    | Fail err => exists me rep, Run fuel (load_code v s') false
-                                 = (reset_after_error (SG (load_code v s') G' (c_mid c) me), RError err rep)
-    end.
+  wfcs s' /\ (exists code, lay s s' code) /\
+  exists k, forall fuel,
+    ((fuel <= k)%nat -> snd (Run fuel (load_code v s') false) = RFuel \/
+                        match res with
+                        | Ok _ => False
+                        | Fail err => exists me rep, Run fuel (load_code v s') false
+                                        = (reset_after_error (SG (load_code v s') G' (c_mid c) me), RError err rep)
+                        end) /\
+    ((k < fuel)%nat ->
+     match res with
+     | Ok _ => ran_to_end v c m s' G' (Run fuel (load_code v s') false)
+     | Fail err => exists me rep, Run fuel (load_code v s') false
+                                  = (reset_after_error (SG (load_code v s') G' (c_mid c) me), RError err rep)
+     end).
 Proof.
   intros Hw Hwf Hid Hbc0 HB HM.
   unfold ByteCodeNoStck in HB. rewrite discard_fl0 in HB.
@@ -341,6 +350,7 @@ Proof.
   set (v1 := load_code v sfin).
   set (r0 := {| r_ctx := 0; r_ip := c_ip c; r_tmp := VNil |}).
   assert (Lfin : lay s sfin (code ++ pop_code K)) by (apply (lay_trans s s1 sfin); assumption).
+  split; [exists (code ++ pop_code K); exact Lfin|].
   pose proof (bcode_extend v s sfin _ Lfin Hbc0) as Hbc.
   pose proof (code_at_loaded v s sfin _ Hwf (proj1 Lfin)) as Hc. fold v1 in Hc.
   pose proof Hc as Hc0. apply code_at_app in Hc. destruct Hc as [HcC HcP].
@@ -370,10 +380,11 @@ Proof.
           try (rewrite Hc1; reflexivity).
         rewrite Hi1. destruct Lp as (_ & N & _). rewrite N. unfold zlen. cbn [List.length]. lia. }
     destruct Popped as [k2 [m2 [r2 [Hs2 [Hm2 [Hsp2 [Hc2 Hi2]]]]]]].
-    exists (k + k2)%nat. intros fuel Hfuel.
+    exists (k + k2)%nat. intros fuel.
     pose proof (start_run v s sfin c m Hid fuel false) as Hrun. fold v1 r0 in Hrun. rewrite Hrun.
     assert (Hsteps : steps false (k + k2) v1 r0 = SNext (St v2 (c_mid c) m2) r2).
     { rewrite steps_app, Hs. exact Hs2. }
+    split; [intros Hle; left; apply (run_loop_short_next false (k + k2) v1 r0 _ _ fuel (start_ncs v sfin Wfin) Hsteps Hle)|intros Hfuel].
     unfold ran_to_end.
     rewrite (run_finish_nostck v1 r0 _ _ _ fuel c (start_ncs v sfin Wfin) Hsteps Hfuel).
     + eexists. exists m2. conj.
@@ -382,15 +393,36 @@ Proof.
       * exact Hsp2.
       * exact Hm2.
       * unfold v2. destruct G'; reflexivity.
+      * reflexivity.
       * eexists. conj; [cbn [v_ctxs set_ctx]; apply assoc_get_set_same| |reflexivity|reflexivity].
         cbn [c_ip]. exact Hi2.
     + rewrite Hi2. reflexivity.
     + exact Hc2.
     + exact (id_ctx _ _ _ _ Hid).
-  - destruct E as [k [me [ip [vals Hs]]]]. exists k. intros fuel Hfuel.
+  - destruct E as [k [me [ip [vals Hs]]]]. exists k. intros fuel.
     pose proof (start_run v s sfin c m Hid fuel false) as Hrun. fold v1 r0 in Hrun. rewrite Hrun.
-    replace fuel with (k + (fuel - k))%nat by lia.
-    rewrite (run_loop_steps_error false k v1 r0 (fuel - k) _ _ _ _ _ (start_ncs v sfin Wfin) Hs). eauto.
+    split.
+    + intros _. destruct (run_loop_short_err false k v1 r0 _ _ _ _ _ fuel (start_ncs v sfin Wfin) Hs) as [F|R]; [left; exact F|].
+      right. rewrite R. eauto.
+    + intros Hfuel. replace fuel with (k + (fuel - k))%nat by lia.
+      rewrite (run_loop_steps_error false k v1 r0 (fuel - k) _ _ _ _ _ (start_ncs v sfin Wfin) Hs). eauto.
+Qed.
+
+Theorem bytecode_nostck_run_stmt t s s' v c m n G' res :
+  wstmt t = true -> wfcs s -> idle v s c m -> bcode (load_code v s) ->
+  ByteCodeNoStck t s = CompOk s' ->
+  ssem n (wof v) t = Some (G', res) ->
+  wfcs s' /\
+  exists k, forall fuel, (k < fuel)%nat ->
+    match res with
+    | Ok _ => ran_to_end v c m s' G' (Run fuel (load_code v s') false)
+    | Fail err => exists me rep, Run fuel (load_code v s') false
+                                 = (reset_after_error (SG (load_code v s') G' (c_mid c) me), RError err rep)
+    end.
+Proof.
+  intros Hw Hwf Hid Hbc HB HM.
+  destruct (bytecode_nostck_run_stmt_full t s s' v c m n G' res Hw Hwf Hid Hbc HB HM) as [W [_ [k R]]].
+  split; [exact W|]. exists k. intros fuel Hf. exact (proj2 (R fuel) Hf).
 Qed.
 
 (* ---- the definitional semantics and the compiled code agree ---- *)
